@@ -305,6 +305,9 @@ func (p *ReverseProxy) clusterInvoke(srv *BfeServer, cluster *bfe_cluster.BfeClu
 			switch retVal {
 			case bfe_module.BfeHandlerFinish:
 				// close the connection after response
+				// Note: connection num of the selected backend has not been increased yet,
+				// clear it so that FinishReq() does not decrease it
+				request.Trans.Backend = nil
 				action = closeAfterReply
 				return
 			}
